@@ -133,8 +133,12 @@ def translate_v(st, va, ispriv, iswrite, wasaligned, rd):
     unpred = land(mmu_on, walk_ok, lnot(align), lor(dacr == 2, land(check_perm, perm_unpred)))
     # without the Virtualization Extensions an unaligned access to Device / Strongly-ordered memory never reaches the
     # translation (the accessor faults first): UNPREDICTABLE here
-    unpred = lor(unpred, land(lor(lnot(mmu_on), walk_ok), align))
+    virt = st['cfg.have_virt_ext']
+    unpred = lor(unpred, land(lnot(virt), lor(lnot(mmu_on), walk_ok), align))
     secure = lor(lnot(st['cfg.have_security_ext']), bit(st['scr'], 0) == 0, bits(st['cpsr'], 4, 0) == 0b10110)
+    # Virtualization Extensions present (stage 2 inactive, not Hyp mode): HCR.TGE with the stage 1 MMU on is UNPREDICTABLE in a
+    # Non-secure PL1&0 mode; HCR.DC with the stage 1 MMU off needs HCR.VM == 1 (stage 2), otherwise UNPREDICTABLE
+    unpred = lor(unpred, land(virt, lnot(secure), ite(mmu_on, bit(st['hcr'], 27) == 1, bit(st['hcr'], 12) == 1)))
     return dict(kind=kind, level=w['level'], domain=w['domain'], domain_known=w['domain_known'],
                 pa=ite(mmu_on, w['pa'], mva), ns=ite(secure, ite(mmu_on, w['ns'], 0), 1), mem=mem, impdef=land(mmu_on, impdef),
                 unpred=unpred, mva=mva, mmu_on=mmu_on, walk=w)
